@@ -303,7 +303,13 @@ def obligations(tier, seed):
                     "content_length": m.get("content_length.present", "False") == "True", "limit": m.get("max_body_size", "1000")}
             r["replay"] = {"scenario": "c19_chunking", "args": args}
         out.append(r)
-    # ---- the sniffing closure really is "not ASCII whitespace" --------------------------------------------------------------
+    out.append(sniff_closure_obligation(core))
+    out += _gate(srv)
+    return out
+
+
+def sniff_closure_obligation(core, name="kernel:sniff-closure", scenario="c19_leading_ws"):
+    """the byte predicate read_body uses to skip leading whitespace really is 'not ASCII whitespace'"""
     cb = R.find_body(core, r"^fn read_body::\{closure#0\}::\{closure#\d+\}\(_1: &mut \{closure@core/src/http_helpers\.rs[^}]*\}, _2: &\(usize, &u8\)\) -> bool")
     ctx = P.make_ctx(core, extra_models=[])
     ctx.inline = [M.crate_inliner(core)]
@@ -323,13 +329,11 @@ def obligations(tier, seed):
             viol.append(z3.And(p.cond(), ex.read_node(p.ret) != z3.Not(is_ws(byte))))
             reach.append(p.cond())
     if badc or not reach:
-        out.append(R.Result(engine="mirsym", name="kernel:sniff-closure", kind="kernel", status="unsupported", detail=str([(p.kind, p.detail) for p in badc[:1]])[:300], bodies=[cb.name]))
+        return (R.Result(engine="mirsym", name=name, kind="kernel", status="unsupported", detail=str([(p.kind, p.detail) for p in badc[:1]])[:300], bodies=[cb.name]))
     else:
-        out.append(R.decide("kernel:sniff-closure:is-not-ascii-whitespace", "kernel", z3.Or(*viol), [z3.Or(*reach)], bodies=[cb.name],
+        return (R.decide(name + ":is-not-ascii-whitespace", "kernel", z3.Or(*viol), [z3.Or(*reach)], bodies=[cb.name],
                             desc="the byte predicate used to skip leading whitespace is exactly 'not one of space, tab, LF, FF, CR' (the same set the WebSocket path uses)",
-                            bounds="all 256 byte values", keydetail="whitespace-set", replay=dict(scenario="c19_leading_ws", vars={}, fixed={}, region=z3.BoolVal(True))))
-    out += _gate(srv)
-    return out
+                            bounds="all 256 byte values", keydetail="whitespace-set", replay=dict(scenario=scenario, vars={}, fixed={}, region=z3.BoolVal(True))))
 
 
 def limit_obligations(core, tier):
